@@ -368,7 +368,8 @@ func NewBatch(prop, tier string, seed uint64) *Batch {
 		stubLife := []uint8{4, 6, 8, 10, 12, 14}
 		if thorough {
 			realLife = []uint8{4, 6, 8, 10}
-			stubLife = []uint8{4, 6, 8, 10, 12, 14, 16, 18}
+			stubLife = []uint8{4, 6, 8, 10, 12, 14, 16, 18, 20}
+			b.Fixed = append(b.Fixed, wholeLife(fr, 22, uint8(seed%3), true, 14)) // one hash function, ~5 min
 		}
 		// heavy first, so that static assignment spreads them over workers
 		for i := len(stubLife) - 1; i >= 0; i-- {
